@@ -500,3 +500,26 @@ func dump(b *types.Block) string {
 }
 
 func dumpHash(b *types.Block) [32]byte { return sha256.Sum256([]byte(dump(b))) }
+
+// dumpSections: sha-256 of the four sections of the dump (header line, transaction lines, evidence lines,
+// commit lines) - the reference content each commitment (Block.Hash, Data.Hash, Evidence.Hash, Commit.Hash) stands for.
+func dumpSections(b *types.Block) (sec [4][32]byte) {
+	var parts [4]strings.Builder
+	for i, l := range strings.Split(strings.TrimSuffix(dump(b), "\n"), "\n") {
+		k := 3
+		switch {
+		case i == 0:
+			k = 0
+		case strings.HasPrefix(l, "tx[") || l == "nil-data":
+			k = 1
+		case strings.HasPrefix(l, "ev["):
+			k = 2
+		}
+		parts[k].WriteString(l)
+		parts[k].WriteByte('\n')
+	}
+	for k := range parts {
+		sec[k] = sha256.Sum256([]byte(parts[k].String()))
+	}
+	return
+}
